@@ -1,0 +1,16 @@
+//go:build verif
+
+// Contracts for the verification machinery under /verif (contract-based deductive
+// verification). This file is comment-only, is excluded from every normal build by the
+// "verif" build tag, and declares nothing. See /verif/DESIGN.md §4.
+
+package narrow
+
+// C15: integer narrowing succeeds exactly when the value is representable in the target
+// type, and then preserves it. The contract is generic; it is checked on each of the 10x10
+// monomorphic instances over the built-in integer types (instantiated by the checker's load
+// overlay), with exact wrap-around arithmetic.
+//@ func ToInteger(from) (res, ok)
+//@   ensures ok == fits(int(from), res)
+//@   ensures ok ==> int(res) == int(from)
+//@   assigns nothing
